@@ -358,6 +358,11 @@ func genC11(tier string, r *rng) {
 		buildResp("HTTP/1.1 400 Bad Request", rb, "\r\n", []byte("body")),
 		buildResp(ok101, rb[:2], "\r\n", nil),
 		buildResp(ok101, rb, "\r\n", nil)[:60],
+		// LF-only head followed by frame data that contains CRLF CRLF; mixed line ends (header lines end in LF,
+		// the blank line is CRLF; header lines CRLF, the blank line a bare LF)
+		buildResp(ok101, rb, "\n", []byte("\x81\x10SEND\r\na:b\r\n\r\nbody")),
+		append(bytes.TrimSuffix(buildResp(ok101, rb, "\n", nil), []byte("\n")), []byte("\r\n\x81\x02hi")...),
+		append(bytes.TrimSuffix(buildResp(ok101, rb, "\r\n", nil), []byte("\r\n")), []byte("\n\x81\x02hi\r\n\r\nmore")...),
 	}
 	dlc := []string{"-", "proto@" + hx([]byte("a")) + "|" + hx([]byte("b")) + "/ext@" + pmd + ":" + hx([]byte("client_max_window_bits")) + "="}
 	for _, rs := range resps {
